@@ -205,6 +205,16 @@ def build_harness(name="l1", race=False):
         cmd.append("-race")
     cmd.append("./" + name)
     rc, out = sh(cmd, cwd=hdir, env=GOENV, timeout=1800)
+    if rc == 0 and name != "hookcheck":
+        # the hooks find unexported fields by type: their self-test says whether the structs still have the expected shape
+        hb = os.path.join(WORK, "hookcheck" + RTAG)
+        rc2, out2 = sh(["go", "build", "-tags", "verif", "-overlay", ov, "-o", hb, "./hookcheck"], cwd=hdir, env=GOENV, timeout=1800)
+        if rc2 == 0:
+            rc3, out3 = sh([hb], timeout=60)
+            if rc3 != 0:
+                return False, "the verif hooks no longer fit the code: " + out3[-600:], binp
+        else:
+            return False, "the verif hooks no longer fit the code (hookcheck does not build): " + out2[-600:], binp
     return rc == 0, out, binp
 
 # further statement files of a property (same rules as Properties/<pid>.v: statements, Print Assumptions, Examples);
